@@ -109,6 +109,12 @@ pub fn make_case(prop: &str, seed: u64) -> Case {
                     mix.restart_lose_index = if case.knobs.cache_indexes { 3 } else { 0 };
                 }
                 "C16" => {
+                    case.gen.send_then_purge_chance = 0.5;
+                    // repeated ids under deduplication: what is dropped must not be counted
+                    case.knobs.dedup = rng.chance(0.3);
+                    if case.knobs.dedup {
+                        case.gen.repeat_id_chance = 0.3;
+                    }
                     mix.get_topic = 20;
                     mix.audit = 8;
                     mix.purge = 5;
